@@ -48,6 +48,17 @@ func c10Truncations(complete c10Body) []c10Body {
 // c10Trailing: a complete, acceptable answer that is followed by something else, or that stops short of
 // its announced length right after the closing brace — malformed / truncated answers that a decoder
 // reading just the first JSON value would not notice.
+// c10ErrorShapes: the shapes in which providers report errors (they matter on error statuses, where the
+// body is looked at for logging and classification only)
+func c10ErrorShapes() []c10Body {
+	return []c10Body{
+		{Name: "error-as-object", Body: `{"error":{"code":503,"message":"The service is currently unavailable.","status":"UNAVAILABLE"}}`},
+		{Name: "error-null", Body: `{"error":null,"error_description":null}`},
+		{Name: "error-as-number", Body: `{"error":42,"error_description":["a","b"]}`},
+		{Name: "error-as-string", Body: `{"error":"invalid_grant","error_description":"The authorization code is invalid or has expired."}`},
+	}
+}
+
 func c10Trailing(complete c10Body) []c10Body {
 	return []c10Body{
 		{Name: "complete-then-trailing-text", Body: complete.Body + "\n<html><body>502 Bad Gateway</body></html>"},
@@ -59,6 +70,7 @@ func c10Trailing(complete c10Body) []c10Body {
 func c10TokenBodies(provider string, thorough bool) []c10Body {
 	b := c10TokenBodiesBase(provider)
 	b = append(b, c10Trailing(b[0])...)
+	b = append(b, c10ErrorShapes()...)
 	if thorough {
 		b = append(b, c10Truncations(b[0])...)
 	}
@@ -110,6 +122,7 @@ func c10TokenBodiesBase(provider string) []c10Body {
 func c10UserinfoBodies(provider string, thorough bool) []c10Body {
 	b := c10UserinfoBodiesBase(provider)
 	b = append(b, c10Trailing(b[0])...)
+	b = append(b, c10ErrorShapes()...)
 	if thorough {
 		ver := provider == "okta"
 		b = append(b,
@@ -332,7 +345,7 @@ func init() {
 	fw.Register(&fw.Check{
 		ID:    "C10",
 		Level: "fault_enumeration",
-		Rule: "full product of identity-provider answers, with the userinfo answer enumerated on demand (only on executions that reach that call): token endpoint status {200,400,401,403,429,500,503} x body {complete, missing fields, id_token with 0/1/2/4 segments, bad base64, bad JSON, email_verified false/absent/string, empty or non-string email, truncated JSON, empty, HTML, array, null, a complete answer followed by text / by a second object / stopping short of its announced length} x connection reset; userinfo status {200,401,500,429} x body {verified, unverified, absent flag, string flag, empty/no email, truncated, empty, HTML, null} x connection reset; " +
+		Rule: "full product of identity-provider answers, with the userinfo answer enumerated on demand (only on executions that reach that call): token endpoint status {200,400,401,403,429,500,503} x body {complete, missing fields, id_token with 0/1/2/4 segments, bad base64, bad JSON, email_verified false/absent/string, empty or non-string email, truncated JSON, empty, HTML, array, null, a complete answer followed by text / by a second object / stopping short of its announced length, provider error documents with `error` as object / null / number / string} x connection reset; userinfo status {200,401,500,429} x body {verified, unverified, absent flag, string flag, empty/no email, truncated, empty, HTML, null} x connection reset; " +
 			"targets: GoogleProvider.Redeem, OktaProvider.Redeem, AmazonCognitoProvider.Redeem (URLs pointed at the scripted IdP) and Okta and Cognito end-to-end through the unmodified NewAuthenticatorMux /callback; " +
 			"thorough adds: EVERY proper prefix of the complete token answer and of the complete userinfo answer as a cleanly framed body, the same answers cut on the wire at every 8th byte (full Content-Length announced, connection closed early), statuses 302/404/502 (userinfo: 302/403/404/503), email_verified as number/null/\"false\", email as array/null, a JSON array, two concatenated objects; " +
 			"oracle: a session exists => the provider answered 200 with a complete answer for exactly that email, verified where Google/Okta require it; every other answer => an error (>= 400 page, no session cookie); a panic counts as a crash of the request; " +
